@@ -74,7 +74,7 @@ Proof. vm_compute. reflexivity. Qed.
 (* ---- back end: compile correctness on the models that are compared with the implementation on every run ----
 
    Fragment (model/ScalarFrag.v, model/VarProg.v): programs over top-level variables - any number of declarations
-   `x := e`, assignments `x = e`, expression statements, conditionals `if c { ... } else { ... }` and condition loops
+   `x := e`, assignments `x = e`, expression statements, conditionals `if c { ... } else { ... }` / `if c { ... }` and condition loops
    `for c { ... }` whose blocks are again lists of assignments, expression statements, conditionals and loops, nested
    to any depth -, whose expressions are built from integer / boolean / nil / string literals, variables declared
    earlier, prefix - and !, the arithmetic and comparison operators (on integers and strings), short-circuit && and
@@ -214,8 +214,8 @@ Qed.
 
 (* ... and with loops and nesting:
      a := 0; b := 0
-     for a < 3 { a = a + 1; if a == 2 { b = b + 10; for false { } } else { b = b + 1; b }; a }
-     b                                                                                         (= 12)
+     for a < 3 { a = a + 1; if a == 2 { b = b + 10; for false { } } else { b = b + 1; b }; if a > 2 { b = b + 100 }; a }
+     b                                                                                         (= 112)
    ends with fuel 6 but not with fuel 4 *)
 Definition ex_lprog : list stmt :=
   (SDecl (SInt 0) :: SDecl (SInt 0) ::
@@ -223,16 +223,17 @@ Definition ex_lprog : list stmt :=
      (SSet 0 (SBin BAdd (SVar 0) (SInt 1)) ::
       SIf (SBin CEq (SVar 0) (SInt 2)) (SSet 1 (SBin BAdd (SVar 1) (SInt 10)) :: SWhile (SBool false) nil :: nil)
                                        (SSet 1 (SBin BAdd (SVar 1) (SInt 1)) :: SExpr (SVar 1) :: nil) ::
+      SIf1 (SBin CGt (SVar 0) (SInt 2)) (SSet 1 (SBin BAdd (SVar 1) (SInt 100)) :: nil) ::
       SExpr (SVar 0) :: nil) ::
    SExpr (SVar 1) :: nil)%list.
 Example C01_var_program_loop_example :
   wf_stmts true 0 ex_lprog = true /\
-  option_map top_result (run_stmts 6 nil ex_lprog ScalarFrag.VNil) = Some (inl (ScalarFrag.VInt 12)) /\
+  option_map top_result (run_stmts 6 nil ex_lprog ScalarFrag.VNil) = Some (inl (ScalarFrag.VInt 112)) /\
   run_stmts 4 nil ex_lprog ScalarFrag.VNil = None /\
   match compile_program 10 nil (embed_stmts ex_names 0 ex_lprog) with
-  | inr (c, tabs) => match VM.run 500 c tabs 2 nil with RVal (VM.VInt z) _ => z = 12%Z | _ => False end
+  | inr (c, tabs) => match VM.run 500 c tabs 2 nil with RVal (VM.VInt z) _ => z = 112%Z | _ => False end
   | inl _ => False
-  end /\ fst (Sem.run 10 (embed_stmts ex_names 0 ex_lprog)) = Sem.OVal (Sem.VInt 12).
+  end /\ fst (Sem.run 10 (embed_stmts ex_names 0 ex_lprog)) = Sem.OVal (Sem.VInt 112).
 Proof.
   split; [vm_compute; reflexivity|]. split; [vm_compute; reflexivity|]. split; [vm_compute; reflexivity|].
   split; vm_compute; reflexivity.
